@@ -12,8 +12,8 @@ THEOREM_STATEMENTS = []
 
 
 def streams(seed, tier):
-    return _hc.build_streams(["tx", "pair", "ratepair", "live"], seed, tier, 0.7)
+    return _hc.build_streams(["tx", "pair", "ratepair", "live", "tswin"], seed, tier, 0.7)
 
 
 def oracle(name, ops, out):
-    return _hc.run_oracles({"*": [crash_oracle], "tx": [transmission_oracle], "pair": [transmission_oracle], "ratepair": [transmission_oracle], "live": [transmission_oracle, stall_oracle]}, name, ops, out)
+    return _hc.run_oracles({"*": [crash_oracle], "tx": [transmission_oracle], "pair": [transmission_oracle], "ratepair": [transmission_oracle], "live": [transmission_oracle, stall_oracle], "tswin": [transmission_oracle]}, name, ops, out)
